@@ -19,6 +19,11 @@ _N = {
     "quantifier includes: values exactly on a boundary or exactly equal to each other, zero / negative / very large or very small magnitudes, "
     "integer or float32 dtypes, lists or tuples instead of arrays, a single row or the smallest admissible size, the last element / last "
     "interval / last dimension, a dimension count other than 2, or options at the ends of their admissible range.\n "),
+ "h": ("(2b) do NOT take the first code site or mechanism that comes to mind. Prefer a bug in the GLUE rather than in the core formula: "
+    "argument parsing and defaults, conversion between the public API and the internal representation (lists vs arrays, dicts of options, "
+    "index <-> name mapping, n-D reshape / flatten / transpose, degrees vs radians, probability vs exceedance), an error-handling path that "
+    "swallows or converts an exception, a warning that is no longer raised, or the bookkeeping that decides WHICH object, column, interval or "
+    "dimension a value belongs to. The property must still be the one that is violated.\n "),
 }
 NUDGE = _N.get(variant[-1], "") if variant >= "e" else ""
 print(f"""You are helping to evaluate a verification effort for the open-source Python library `virocon` (environmental contours from hierarchical joint distributions). Your job is to play the role of a developer who introduces a subtle bug.
